@@ -291,7 +291,10 @@ def run(ctx, anchors=None):
             src = astq.expand(f, n["obj"]) or n["obj"]
             if not any(x.get("k") == "ref" and x.get("n") in pnames for x in walk(src)):
                 continue
-            if any(astq.is_call(a) and ((a.get("n") or "").startswith("btc_") or (a.get("n") or "") in ("printf", "fprintf")) for a in f.ancestors(n)):
+            def log_call(a):
+                nm = a.get("n") or ((a.get("fn") or {}).get("n") if isinstance(a.get("fn"), dict) else None) or ""     # the loggers are function pointers
+                return astq.is_call(a) and (a.get("ty") or "") == "void" and (nm.startswith("btc_") and nm.endswith("logf")) or nm in ("printf", "fprintf")
+            if any(log_call(a) for a in f.ancestors(n)):
                 continue
             narrowed.append(n)
         ctx.inst(not narrowed, "R03.10", "operand-not-narrowed@" + base, f.loc(narrowed[0]) if narrowed else f.loc(),
